@@ -80,6 +80,30 @@ class time_limit:
         return False
 
 
+def limited(fn, seconds=10):
+    """Wrap an implementation runner: a call that does not return within `seconds` yields ('hang', seconds)
+    instead of blocking the check (the result then differs from the model's and fails the oracle)."""
+    import functools
+
+    @functools.wraps(fn)
+    def run(*a, **kw):
+        try:
+            with time_limit(seconds):
+                return fn(*a, **kw)
+        except Hang:
+            return ('hang', seconds)
+    return run
+
+
+def limit_impl(namespace, names=None, seconds=10):
+    """Apply `limited` to every function called impl_* (or the listed names) of a harness module."""
+    for n, f in list(namespace.items()):
+        if callable(f) and ((names and n in names) or (not names and n.startswith('impl_'))) and not getattr(f, '_limited', False):
+            g = limited(f, seconds)
+            g._limited = True
+            namespace[n] = g
+
+
 def sh(cmd, timeout=None, cwd=None, env=None, input=None):
     p = subprocess.run(cmd, shell=isinstance(cmd, str), cwd=cwd, env=env, input=input,
                        stdout=subprocess.PIPE, stderr=subprocess.STDOUT, timeout=timeout, text=True)
